@@ -5,6 +5,7 @@
 -/
 import Nice.Proofs.PTcpRun
 import Nice.Props.C09Window
+import Nice.Props.C10Kernels
 namespace Nice.Props.C09
 open Nice.PTcp Nice.Gen Nice.Proofs.PTcp
 
